@@ -157,3 +157,22 @@ def simplify(x):
     if is_sym(x):
         return z3.simplify(x)
     return x
+
+
+def ForAllInts(bounds, body):
+    """forall x1..xn in their inclusive ranges: body(x1..xn).
+    bounds: [(name, lo, hi)], lo/hi may be symbolic (then the quantifier is posed to the solver with
+    range guards); natively the ranges are enumerated (lo/hi are ints there)."""
+    if HAVE_Z3 and (any(is_sym(lo) or is_sym(hi) for _, lo, hi in bounds) or _FORCE_SYMBOLIC_QUANT[0]):
+        xs = [z3.Int("q!" + n) for n, _, _ in bounds]
+        guard = And(*[And(x >= lo, x <= hi) for x, (_, lo, hi) in zip(xs, bounds)])
+        b = body(*xs)
+        return z3.ForAll(xs, z3.Implies(tobool(guard), tobool(b)))
+    import itertools
+    for vals in itertools.product(*[range(lo, hi + 1) for _, lo, hi in bounds]):
+        if not body(*vals):
+            return False
+    return True
+
+
+_FORCE_SYMBOLIC_QUANT = [False]
